@@ -90,6 +90,13 @@ def case(draw, tier):
     F = {"params": params, "names": names, "out": "TS[int]", "stmts": body, "ret": ret}
     opts = {"cancel": True, "multi": True, "no_rewrite": True, "grow": draw(st.integers(0, 3)) == 0, "keys": draw(st.sampled_from([3, 6, 10]))}
     script = draw(tm.history(("TSD", "int", ("TS", "int")), start, horizon, opts, max_cycles=14 if big else 8))
+    if script and draw(st.integers(0, 24)) == 0:
+        # a burst that takes the live key count past one 64-slot bitmap word (keys 200.. live until the end; some are updated later)
+        n_burst = draw(st.integers(60, 90))
+        script[0][1].append({"k": "D", "ops": [["set", 200 + j, j % 7] for j in range(n_burst)]})
+        for t, ops in script[1:]:
+            if draw(st.booleans()):
+                ops.append({"k": "D", "ops": [["set", 200 + draw(st.integers(0, n_burst - 1)), draw(st.integers(0, 30))]]})
     b_script = draw(gen.int_script(start, end - 1, max_size=5)) if use_b else None
     # optional second multiplexed dictionary: its keys are a subset of the first one's, appear at or after them (until
     # then the child's input is a phantom, i.e. invalid) and leave together with them
@@ -99,7 +106,10 @@ def case(draw, tier):
               # differing key sets: a key may leave the second dictionary while the first keeps its child alive, and come back
               "leave_after": draw(st.sampled_from([0, 0, 1, 2, 3])), "readd_after": draw(st.sampled_from([0, 1, 2])),
               "yy_passive": draw(st.booleans())}
-    return {"start": start, "end": end, "F": F, "use_key": use_key, "use_b": use_b, "script": script, "b_script": b_script, "flags": sorted(flags), "d2": d2}
+    # passive(b): the map NODE does not listen to the broadcast argument; children that read it actively are woken out of band
+    b_passive = use_b and draw(st.integers(0, 2)) == 0
+    return {"start": start, "end": end, "F": F, "use_key": use_key, "use_b": use_b, "b_passive": b_passive, "script": script, "b_script": b_script,
+            "flags": sorted(flags), "d2": d2}
 
 
 @st.composite
@@ -299,7 +309,7 @@ def check(case, ctx) -> Result:
             {"id": "comb", "op": "node", "ins": ["inner", {"arg": n, "passive": True} if d2.get("yy_passive") else {"arg": n}], "out": "TS[int]",
              "fn": "sum", "valid": [0], "coef": [1, 1], "log_inputs": False}]}
         fname = "F2"
-    args = [{"fn": fname}, {"ts": "d"}] + ([{"ts": "bsrc"}] if case["use_b"] else []) + ([{"ts": "d2"}] if d2 else [])
+    args = [{"fn": fname}, {"ts": "d"}] + ([{"ts": {"r": "bsrc", "passive": True} if case.get("b_passive") else "bsrc"}] if case["use_b"] else []) + ([{"ts": "d2"}] if d2 else [])
     stmts = [{"id": "d", "op": "src", "schema": "TSD[int,TS[int]]", "script": case["script"]}]
     if d2:
         stmts.append({"id": "d2", "op": "src", "schema": "TSD[int,TS[int]]", "script": d2_script})
@@ -421,11 +431,15 @@ def check(case, ctx) -> Result:
         res.labels.append("nine_plus_live")
     if maxlive >= 17:
         res.labels.append("seventeen_plus_live")
+    if maxlive >= 65:
+        res.labels.append("sixty_five_plus_live")
     res.labels += case["flags"]
     if case["use_key"]:
         res.labels.append("key_consuming")
     if case["use_b"]:
         res.labels.append("broadcast")
+    if case.get("b_passive"):
+        res.labels.append("passive_broadcast")
     if d2:
         res.labels.append("second_multiplexed_dict")
         if any(v is None for ys in y_ticks.values() for _, v in ys):
